@@ -34,6 +34,8 @@ pub trait DecisionNNFBuilder<'a>: TopDownBuilder<'a, BddPtr<'a>> {
         }
         let mut sub = nnf;
         for l in literals {
+            #[cfg(rsdd_verif)]
+            crate::verif::probe(crate::verif::Probe::TopDownImplied);
             let node = if l.polarity() {
                 BddNode::new(l.label(), BddPtr::false_ptr(), sub)
             } else {
@@ -69,9 +71,15 @@ pub trait DecisionNNFBuilder<'a>: TopDownBuilder<'a, BddPtr<'a>> {
 
         // check cache
         let hashed = sat.cur_hash();
+        #[cfg(rsdd_verif)]
+        if crate::verif::buggify(crate::verif::Site::TopDownCacheForget) {
+            cache.remove(&hashed);
+        }
         match cache.get(&hashed) {
             None => (),
             Some(v) => {
+                #[cfg(rsdd_verif)]
+                crate::verif::probe(crate::verif::Probe::TopDownCacheHit);
                 return *v;
             }
         }
@@ -146,6 +154,10 @@ pub trait DecisionNNFBuilder<'a>: TopDownBuilder<'a, BddPtr<'a>> {
             BddPtr::PtrTrue | BddPtr::PtrFalse => bdd,
             BddPtr::Reg(node) | BddPtr::Compl(node) if node.var == lbl => {
                 let r = if value { bdd.high() } else { bdd.low() };
+                #[cfg(rsdd_verif)]
+                if bdd.is_neg() {
+                    crate::verif::probe(crate::verif::Probe::DnnfCondFlip);
+                }
                 if bdd.is_neg() {
                     r.neg()
                 } else {
